@@ -228,7 +228,7 @@ CHECKS["C12"] = {
     "rule": "a case = one store + login sequence (1..8 logins). Non-trivial = a right-password login on an upgradeable record that has auxiliary data; distinct = distinct "
             "(mode, algorithm old>new, frontend, policy outcome, policy configured)",
     "assumptions": ["remote master is an in-process agent instance reached through a stub RoundTripper"],
-    "required_classes": {"all": ["login:right-password-on-upgradeable-record-with-aux", "upgrade-performed:local", "upgrade-performed:master", "mode:", "mode:remote-unreachable"]},
+    "required_classes": {"all": ["login:password-with-invalid-utf8", "work-area-unusable(.tmp is a regular file)", "login:right-password-on-upgradeable-record-with-aux", "upgrade-performed:local", "upgrade-performed:master", "mode:", "mode:remote-unreachable"]},
     "jobs": [
         J("upgrades", AGENT, "TestC12Upgrades", {"shards": 8, "checks": 60}, {"shards": 16, "checks": 3000}, toolchain="go126"),
     ],
@@ -539,3 +539,6 @@ CHECKS["C02"]["required_classes"]["all"] += ["kind:line-prefix"]
 CHECKS["C10"]["jobs"].append(J("fdexhaustion", VBB, "TestC10FdExhaustion", {"shards": 1, "timeout": 300}, rapid=False))
 CHECKS["C10"]["prebuild"] = BIN_PREBUILD
 CHECKS["C10"]["required_classes"]["all"] += ["fd-exhaustion-spike"]
+
+CHECKS["C14"]["jobs"].append(J("concurrent", VSTORE, "TestC14ConcurrentWrites", {"shards": 2, "checks": 40}, {"shards": 8, "checks": 1000}))
+CHECKS["C14"]["required_classes"]["all"] += ["concurrent-writers"]
